@@ -1117,3 +1117,132 @@ Proof.
   - destruct (ANid2tagref _ _) as [[g rf]|]; inversion H; subst; left; reflexivity.
   - inversion H; subst; left; reflexivity.
 Qed.
+
+(* ================= 11. several files used alternately in one process ========================================== *)
+Definition NamesOK (idx : list Z) (names : Z -> list Z) : Prop :=
+  (forall f f', In f idx -> In f' idx -> names f = names f' -> f = f') /\
+  (forall f, In f idx -> nonul (names f) /\ strlen (names f) < DF_MAXFNLEN).
+
+Record GSim (idx : list Z) (g : gstate) (A : Z -> state) : Prop := mkGSim {
+  gs_files : forall f, Sim (g_files g f) (A f);
+  gs_cur : In (g_cur g) idx;
+  gs_names : NamesOK idx (g_names g);
+  gs_last : g_lastfile g = [] \/ exists f, In f idx /\ g_names g f = g_lastfile g;
+  gs_dir : forall kind blocks, kind_ok kind -> s_dir (g_stat g) kind = Some blocks ->
+           exists f, In f idx /\ g_names g f = g_lastfile g /\
+                     (h_sess (g_files g f) = true \/ DirCoh kind blocks (l_dds (h_lib (g_files g f))))
+}.
+
+Lemma with_stat_Sim : forall h a st, Sim h a -> Sim (mkh (with_stat (h_lib h) st) (h_slots h) (h_sess h)) a.
+Proof. intros h a st HS. apply (Sim_transfer h a (with_stat (h_lib h) st) HS); [repeat split | reflexivity]. Qed.
+
+Lemma dfan_in_session_unspec : forall a o, dfan_op o -> sess a = true -> forall mr, snd (step a (fill_full o mr)) = RUnspec.
+Proof. intros a o Hop Hs mr. destruct o; simpl in Hop; try contradiction; simpl; rewrite Hs; reflexivity. Qed.
+
+Lemma upd_files_Sim : forall (F : Z -> hstate) (A : Z -> state) c h2 a', (forall f, Sim (F f) (A f)) -> Sim h2 a' ->
+  forall f, Sim (upd F c h2 f) (upd A c a' f).
+Proof. intros F A c h2 a' H H2 f. unfold upd. destruct (f =? c); [assumption | apply H]. Qed.
+
+Theorem gstep_sim : forall idx g A o g' mr a' sr, GSim idx g A -> full_op o ->
+  gstep g o = (g', mr) -> step (A (g_cur g)) (fill_full o mr) = (a', sr) ->
+  sr = RUnspec \/ exhausted sr mr \/ enum_capped (A (g_cur g)) o \/
+  (GSim idx g' (upd A (g_cur g) a') /\ accepts_full sr mr).
+Proof.
+  intros idx g A o g' mr a' sr HG Hop HM HSp. destruct HG as [Hfiles Hcur Hnames Hlast Hdir].
+  set (c := g_cur g) in *. set (h := g_files g c) in *. set (name := g_names g c) in *.
+  pose proof (Hfiles c) as HS. fold h in HS.
+  unfold gstep in HM. fold c h name in HM.
+  set (opens := if h_sess h then None else dfan_opens o) in *.
+  set (st1 := match opens with Some mode => DFANIopen (g_lastfile g) name mode (g_stat g) | None => g_stat g end) in *.
+  set (h1 := mkh (with_stat (h_lib h) st1) (h_slots h) (h_sess h)) in *.
+  pose proof (with_stat_Sim h (A c) st1 HS) as HS1. fold h1 in HS1.
+  destruct (mstep h1 o) as [h2 r] eqn:EM. inversion HM; subst g' mr; clear HM.
+  destruct (h_sess h) eqn:Es.
+  - (* an AN session is open on the current file *)
+    destruct Hop as [Hop|Hop].
+    2:{ left. pose proof (dfan_in_session_unspec (A c) o Hop (eq_trans (sim_sess _ _ HS) Es) r) as X. rewrite HSp in X. exact X. }
+    assert (Hfill : fill_full o r = fill o r) by (destruct o; simpl in Hop; try contradiction; reflexivity). rewrite Hfill in HSp.
+    destruct (an_step_sim _ _ _ _ _ _ _ HS1 Hop EM HSp) as [X|[X|[HS2 Hacc]]]; [auto | auto|].
+    right. right. right. split; [|left; assumption].
+    constructor; cbn [g_files g_cur g_names g_stat g_lastfile]; fold c; [apply upd_files_Sim; assumption | assumption | assumption | exact Hlast |].
+    + intros kind blocks Hk Hb. unfold stat_of in Hb. cbn [s_dir] in Hb.
+      destruct (op_eq_end o) as [->|Ne].
+      { simpl in EM. inversion EM; subst h2. simpl in Hb. discriminate. }
+      destruct (an_dir_frame _ _ _ _ Hop EM) as [Fd|Fd]; [|rewrite Fd in Hb; discriminate].
+      rewrite Fd in Hb. unfold h1, st1, opens in Hb. cbn [h_lib l_dir with_stat] in Hb.
+      destruct (Hdir kind blocks Hk Hb) as [f [F1 [F2 F3]]]. exists f. split; [assumption|]. split; [exact F2|].
+      unfold upd. destruct (f =? c) eqn:Ef; [|exact F3]. left.
+      destruct (op_eq_start o) as [->|Ns]; [simpl in EM; inversion EM; subst; reflexivity|].
+      rewrite (mstep_sess _ _ _ _ EM Ns Ne). reflexivity.
+  - (* no session on the current file *)
+    assert (Es1 : h_sess h1 = false) by (unfold h1; cbn [h_sess]; first [exact Es | reflexivity]).
+    destruct (dfan_opens o) as [mode|] eqn:Eo.
+    + (* a DFAN call that goes through DFANIopen *)
+      assert (Hmode : mode <> DFACC_CREATE /\ dfan_op o).
+      { destruct Hop as [Hop|Hop]; [destruct o; simpl in Hop; try contradiction; simpl in Eo; discriminate|]. split; [|assumption].
+        destruct o; simpl in Eo; try discriminate; repeat dmatch Eo; inversion Eo; vm_compute; discriminate. }
+      destruct Hmode as [Hmode Hdop].
+      destruct Hnames as [Ninj Nok]. destruct (Nok c Hcur) as [Nn Nl]. fold name in Nn, Nl.
+      assert (Hlf : nonul (g_lastfile g) /\ strlen (g_lastfile g) < DF_MAXFNLEN).
+      { destruct Hlast as [->|[f [F1 F2]]]; [split; [intros x [] | vm_compute; reflexivity] | rewrite <- F2; apply Nok; assumption]. }
+      destruct Hlf as [Ln Ll].
+      assert (HD1 : DirOK (h_lib h1)).
+      { intros kind blocks Hk Hb. unfold h1, st1, opens in Hb. cbn [h_lib l_dir with_stat] in Hb. unfold DFANIopen in Hb.
+        destruct (truth (DFANIopen_newfile (g_lastfile g) name mode)) eqn:En; [cbn [s_dir] in Hb; discriminate|].
+        apply (dfan_open_lemma _ _ _ Ln Nn Ll Nl Hmode) in En.
+        destruct (Hdir kind blocks Hk Hb) as [f [F1 [F2 F3]]]. assert (f = c) by (apply Ninj; auto; rewrite F2; exact En). subst f.
+        fold h in F3. destruct F3 as [F3|F3]; [congruence|]. unfold h1. cbn [h_lib l_dds with_stat]. exact F3. }
+      assert (HSD1 : SimD h1 (A c)) by (split; [assumption | intros _; exact HD1]).
+      destruct (full_step_sim _ _ _ _ _ _ _ HSD1 (or_intror Hdop) EM HSp) as [X|[X|[X|[[HS2 HD2] Hacc]]]]; auto.
+      right. right. right. split; [|assumption].
+      assert (Hs2 : h_sess h2 = false).
+      { assert (h_sess h2 = h_sess h1) by (apply (mstep_sess _ _ _ _ EM); destruct o; simpl in Eo; discriminate). rewrite H. unfold h1. cbn [h_sess]. first [exact Es | reflexivity]. }
+      constructor; cbn [g_files g_cur g_names g_stat g_lastfile]; fold c; [apply upd_files_Sim; assumption | assumption | split; assumption | right; exists c; auto |].
+      * intros kind blocks Hk Hb. exists c. split; [assumption|]. split; [reflexivity|]. right. rewrite upd_same. apply (HD2 Hs2 kind blocks Hk Hb).
+    + (* calls that do not consult the cached directory *)
+      assert (Hst1 : st1 = g_stat g) by reflexivity.
+      assert (Hframe : (sr = RUnspec \/ exhausted sr r \/ enum_capped (A c) o) \/
+                (Sim h2 a' /\ accepts_full sr r /\
+                 (l_dir (h_lib h2) = l_dir (h_lib h1) \/ h_sess h2 = true) /\
+                 (h_sess h2 = true \/ forall k d, kind_ok k -> d_tag d = dfan_tag k -> (In d (l_dds (h_lib h2)) <-> In d (l_dds (h_lib h1)))))).
+      { destruct Hop as [Hop|Hop].
+        - assert (Hfill : fill_full o r = fill o r) by (destruct o; simpl in Hop; try contradiction; reflexivity). rewrite Hfill in HSp.
+          destruct (an_step_sim _ _ _ _ _ _ _ HS1 Hop EM HSp) as [X|[X|[HS2 Hacc]]]; [auto | auto|].
+          right. split; [assumption|]. split; [left; assumption|].
+          destruct (an_closed_lib _ _ _ _ _ HS1 Es1 Hop EM) as [X|X]; [split; [right; assumption | left; assumption] | rewrite X; split; [left; reflexivity | right; intros; tauto]].
+        - destruct o; simpl in Hop; try contradiction; simpl in Eo.
+          + (* put with a zero tag or ref *)
+            destruct ((ttag =? 0) || (tref =? 0)) eqn:Ez; [|discriminate]. unfold mstep in EM. cbv beta iota zeta in EM. rewrite Es1 in EM.
+            unfold DFANIputann in EM. rewrite Ez in EM. inversion EM; subst h2 r. unfold fill_full, step in HSp. rewrite (sim_sess _ _ HS), Es, Ez in HSp. inversion HSp; subst.
+            right. split; [exact HS1|]. split; [left; exact I|]. split; [left; reflexivity | right; intros; tauto].
+          + destruct ((ttag =? 0) || (tref =? 0)) eqn:Ez; [|discriminate]. unfold mstep in EM. cbv beta iota zeta in EM. rewrite Es1 in EM.
+            unfold DFANIgetann in EM. rewrite Ez in EM. inversion EM; subst h2 r. unfold fill_full, fill, step in HSp. rewrite (sim_sess _ _ HS), Es, Ez in HSp. inversion HSp; subst.
+            right. split; [exact HS1|]. split; [left; exact I|]. split; [left; reflexivity | right; intros; tauto].
+          + destruct ((ttag =? 0) || (tref =? 0)) eqn:Ez; [|discriminate]. unfold mstep in EM. cbv beta iota zeta in EM. rewrite Es1 in EM.
+            unfold DFANIgetannlen in EM. rewrite Ez in EM. cbn in EM. inversion EM; subst h2 r. unfold fill_full, fill, step in HSp. rewrite (sim_sess _ _ HS), Es, Ez in HSp. inversion HSp; subst.
+            right. split; [exact HS1|]. split; [left; exact I|]. split; [left; reflexivity | right; intros; tauto].
+          + destruct (sim_dfaddf_S _ _ _ _ _ _ _ _ _ HS1 Hop EM HSp) as [X|[X|[X1 [X2 [X3 X4]]]]]; [auto | auto|].
+            right. split; [assumption|]. split; [assumption|]. split; [left; assumption | right; exact X4].
+          + destruct (sim_dfgetfs_S _ _ _ _ _ _ _ HS1 Hop EM HSp) as [X|[X|[X1 [X2 [X3 X4]]]]]; [auto | auto|].
+            right. split; [assumption|]. split; [assumption|]. split; [left; assumption | right; intros; rewrite X4; tauto].
+          + destruct (tag =? 0) eqn:Ez; [|discriminate]. unfold mstep in EM. cbv beta iota zeta in EM. rewrite Es1 in EM.
+            unfold DFANIlablist in EM. rewrite Ez in EM. inversion EM; subst h2 r. unfold fill_full, fill, step in HSp. cbv beta iota zeta in HSp. rewrite (sim_sess _ _ HS), Es, Ez in HSp. inversion HSp; subst.
+            right. split; [exact HS1|]. split; [left; exact I|]. split; [left; reflexivity | right; intros; tauto]. }
+      destruct Hframe as [[X|[X|X]]|[HS2 [Hacc [Hfd Hfdd]]]]; auto.
+      right. right. right. split; [|assumption].
+      constructor; cbn [g_files g_cur g_names g_stat g_lastfile]; fold c; [apply upd_files_Sim; assumption | assumption | assumption | exact Hlast |].
+      * intros kind blocks Hk Hb. unfold stat_of in Hb. cbn [s_dir] in Hb.
+        destruct Hfd as [Hfd|Hfd].
+        -- rewrite Hfd in Hb. unfold h1 in Hb. cbn [h_lib l_dir with_stat] in Hb. rewrite Hst1 in Hb.
+           destruct (Hdir kind blocks Hk Hb) as [f [F1 [F2 F3]]]. exists f. split; [assumption|]. split; [exact F2|].
+           unfold upd. destruct (f =? c) eqn:Ef; [|exact F3]. apply Z.eqb_eq in Ef. subst f. fold h in F3.
+           destruct F3 as [F3|F3]; [congruence|]. destruct Hfdd as [X|X]; [left; assumption|]. right.
+           apply (DirCoh_other kind blocks (l_dds (h_lib h))); [assumption|]. intros d Htg. apply (X kind d Hk Htg).
+        -- (* a session was opened: the directory is unchanged and belongs to whatever file it belonged to *)
+           destruct (op_eq_start o) as [->|Ns].
+           ++ unfold mstep in EM. rewrite Es1 in EM. inversion EM; subst h2 r. cbn [h_lib l_dir with_stat h1] in Hb. unfold h1 in Hb. cbn [h_lib l_dir with_stat] in Hb. rewrite Hst1 in Hb.
+              destruct (Hdir kind blocks Hk Hb) as [f [F1 [F2 F3]]]. exists f. split; [assumption|]. split; [exact F2|].
+              unfold upd. destruct (f =? c) eqn:Ef; [left; reflexivity | exact F3].
+           ++ exfalso. destruct (op_eq_end o) as [->|Ne]; [unfold mstep in EM; rewrite Es1 in EM; inversion EM; subst; congruence|].
+              rewrite (mstep_sess _ _ _ _ EM Ns Ne) in Hfd. cbn in Hfd. congruence.
+Qed.
